@@ -199,18 +199,22 @@ def _dataset_case(args):
         sel = np.flatnonzero(m)
         for samples in range(0, n + 3):
             for rem in (False, True):
-                for scale in ("linear", "log"):
+                for scale in ("linear/linear", "log/log", "linear/log",
+                              "log/linear"):
+                    xsc, ysc = scale.split("/")
                     case = {"kind": "dataset", "seed": seed, "mask": mi,
                             "samples": samples, "remove_invalid": rem,
                             "scale": scale}
                     cnt += 1
                     r = _call(ds.get_downsampled_scatter, downsample=samples,
-                              xscale=scale, yscale=scale, remove_invalid=rem,
+                              xscale=xsc, yscale=ysc, remove_invalid=rem,
                               ret_mask=True)
                     xs, ys = x[sel], y[sel]
-                    if scale == "log":
-                        with np.errstate(all="ignore"):
-                            xs, ys = np.log(xs), np.log(ys)
+                    with np.errstate(all="ignore"):
+                        if xsc == "log":
+                            xs = np.log(xs)
+                        if ysc == "log":
+                            ys = np.log(ys)
                     nv = int((np.isfinite(xs) & np.isfinite(ys)).sum())
                     tags = {"func": "get_downsampled_scatter",
                             "remove_invalid": rem,
